@@ -391,5 +391,23 @@ def r7_sanitizer_on_copies(chk: Check) -> None:
     shared.inplace_sanitizer_rule(chk, "C06.R7")
 
 
+def r9_merge_builds_new_container(chk: Check) -> None:
+    chk.rule("C06.R9", "OWNERSHIP(merge of call-time params / cookies into the serialized request): the value found under `data[key]` can be the case's own container (`case.query`, `case.cookies`); merging the caller's extra entries must build a NEW mapping - writing into the one that is there changes the case, so a later `case.call()` without `params=` still sends them", floor=1)
+    P = chk.project
+    fn = P.func("core/transforms.py:merge_at")
+    ps = params_of(fn.node)
+    aliases = {name_of(b, "v") for n_, b in pfind("$v = $X", fn.node) if any(isinstance(x, ast.Subscript) and isinstance(x.value, ast.Name) and x.value.id in ps for x in ast.walk(b["X"])) and not isinstance(b["X"], (ast.Dict, ast.DictComp)) and not (isinstance(b["X"], ast.Call) and last_attr(b["X"]) in ("dict", "deepclone", "copy", "deepcopy"))}
+    aliases.discard(None)
+    writes = [s_ for s_ in walk_body(fn.node) if isinstance(s_, (ast.Assign, ast.AugAssign)) and any(isinstance(t, ast.Subscript) and isinstance(t.value, ast.Name) and t.value.id in aliases for t in (s_.targets if isinstance(s_, ast.Assign) else [s_.target]))]
+    writes += [c for c in body_calls(fn) if last_attr(c) in ("update", "setdefault", "pop", "clear") and isinstance(c.func, ast.Attribute) and isinstance(c.func.value, ast.Name) and c.func.value.id in aliases]
+    construct = "merge_at builds a new mapping"
+    if writes:
+        chk.violation("C06.R9", fn, construct,
+                      f"`{unparse(writes[0], 50)}` writes into the mapping found under `data[key]`, which serialize_case fills with `case.query` / `case.cookies` themselves: `case.call(params={{'extra': 1}})` leaves `extra` in the case, and every later request of that case carries it",
+                      fn.loc(writes[0]))
+    else:
+        chk.ok("C06.R9", fn, construct, "", fn.loc())
+
+
 def rules(tier: str) -> list:  # type: ignore[type-arg]
-    return [r1_registries, r2_content_type, r3_quote_all, r3b_template_ownership, r4_header_writers, r5_cookie_pair, r6_no_truthiness_rewrite, r7_sanitizer_on_copies, r8_worklist_pushes_elements, rfwd_forwarding]
+    return [r1_registries, r2_content_type, r3_quote_all, r3b_template_ownership, r4_header_writers, r5_cookie_pair, r6_no_truthiness_rewrite, r7_sanitizer_on_copies, r8_worklist_pushes_elements, r9_merge_builds_new_container, rfwd_forwarding]
